@@ -234,6 +234,20 @@ pub fn step_poll_unbounded(c: &MUCfg) {
         }
         Poll::Pending => {
             vassert!(woken_t || gh.polls_in_call[idv] > 0 || gh.done[idv], "C01:Pending although a queued source was not polled and the task not woken");
+            // Pending only while some source is still live
+            let mut live = false;
+            let mut k = 0;
+            while k < 2 {
+                let mut i = 0;
+                while i < c.caps[k] {
+                    if pre[k].occ[i] && !gh.done[base[k] + i] {
+                        live = true;
+                    }
+                    i += 1;
+                }
+                k += 1;
+            }
+            vassert!(live, "C11:Pending although every source has ended");
             vcover!(true, "cover:pending");
         }
     }
@@ -252,8 +266,13 @@ pub fn step_poll_unbounded(c: &MUCfg) {
         let pos2 = s.qpos(sv).unwrap_or(99);
         let dist2 = (gv2 + n2 - (cursor2 % n2)) % n2;
         vassert!(pos2 != 99, "C01:a queued source lost its place in the ready queue");
+        // rank = (entries ahead of the victim in its group's FIFO) * #groups +
+        // (cursor distance to its group): a visit of its group consumes at
+        // least one entry ahead of it; a call that serves another group must
+        // move the cursor on. Strictly decreasing => polled within
+        // (position + 1) * #groups calls.
         vassert!(
-            dist2 < dist0 || (dist2 == dist0 && pos2 < pos0) || (n2 < n && dist2 <= dist0 && pos2 <= pos0),
+            pos2 * n + dist2 < pos0 * n + dist0,
             "C13:a woken source in another group got no nearer to its turn (starvation)"
         );
         vcover!(true, "cover:victim_not_polled");
